@@ -8,6 +8,7 @@ from skglm.solvers.common import dist_fix_point_cd
 
 from sklearn.exceptions import ConvergenceWarning
 from skglm.utils.sparse_ops import _sparse_xj_dot
+from skglm import _verif
 
 EPS_TOL = 0.3
 MAX_CD_ITER = 20
@@ -98,6 +99,9 @@ class ProxNewton(BaseSolver):
                     "w should be of size n_features: "
                     f"expected {n_features}, got {len(w)}.")
             raise ValueError(val_error_message)
+        if _verif.ON:
+            _verif.emit("init", solver=self, X=X, y=y, datafit=datafit,
+                        penalty=penalty, w=w, Xw=Xw)
 
         for t in range(self.max_iter):
             # compute scores
@@ -124,6 +128,8 @@ class ProxNewton(BaseSolver):
 
             # check convergences
             stop_crit = max(np.max(opt), intercept_opt)
+            if _verif.ON:
+                _verif.emit("outer", t=t, stop_crit=stop_crit, w=w, Xw=Xw)
             if self.verbose:
                 p_obj = datafit.value(y, w, Xw) + penalty.value(w[:n_features])
                 print(
@@ -142,6 +148,8 @@ class ProxNewton(BaseSolver):
                           min(n_features, 2 * gsupp_size))
             # similar to np.argsort()[-ws_size:] but without sorting
             ws = np.argpartition(opt, -ws_size)[-ws_size:]
+            if _verif.ON:
+                _verif.emit("ws", t=t, ws=ws)
 
             grad_ws = grad[ws]
             tol_in = EPS_TOL * stop_crit
@@ -166,6 +174,8 @@ class ProxNewton(BaseSolver):
                     grad_ws[:] = _backtrack_line_search(
                         X, y, w, Xw, fit_intercept, datafit, penalty,
                         delta_w_ws, X_delta_w_ws, ws)
+                if _verif.ON:
+                    _verif.emit("epoch", t=t, epoch=pn_iter, w=w, Xw=Xw)
 
                 # check convergence
                 if self.ws_strategy == "subdiff":
@@ -175,6 +185,8 @@ class ProxNewton(BaseSolver):
                         w, grad_ws, lipschitz_ws, datafit, penalty, ws
                     )
                 stop_crit_in = np.max(opt_in)
+                if _verif.ON:
+                    _verif.emit("inner", t=t, epoch=pn_iter, stop_crit_in=stop_crit_in)
 
                 if max(self.verbose-1, 0):
                     p_obj = datafit.value(y, w, Xw) + penalty.value(w)
@@ -190,6 +202,8 @@ class ProxNewton(BaseSolver):
 
             p_obj = datafit.value(y, w, Xw) + penalty.value(w)
             p_objs_out.append(p_obj)
+            if _verif.ON:
+                _verif.emit("record", t=t, p_obj=p_obj, w=w, Xw=Xw)
         else:
             warnings.warn(
                 f"`ProxNewton` did not converge for tol={self.tol:.3e} "
